@@ -67,7 +67,11 @@ func splitLayer(ents []RawEntry) (whiteouts, opaques []string, rest []RawEntry, 
 //   - marker and whiteout files themselves never materialise;
 //   - every other member is extracted as by FromTar on top of the result (a
 //     non-directory replaces a directory subtree and vice versa, directories merge).
-func ApplyLayers(layers [][]byte) (Tree, []LayerInfo, error) {
+//
+// opaqueXattrs (may be nil) are the overlay opaque xattr names the stacking honours: a directory
+// member whose own tar header carries one of them with the value "y" (a layer made by archiving an
+// overlayfs upper directory with its xattrs) is opaque exactly like a directory holding the marker.
+func ApplyLayers(layers [][]byte, opaqueXattrs []string) (Tree, []LayerInfo, error) {
 	b := newBuilder()
 	var infos []LayerInfo
 	for li, lt := range layers {
@@ -76,6 +80,17 @@ func ApplyLayers(layers [][]byte) (Tree, []LayerInfo, error) {
 			return nil, nil, fmt.Errorf("layer %d: %w", li, err)
 		}
 		whs, opqs, rest, info := splitLayer(ents)
+		for _, re := range rest {
+			if re.Hdr.Typeflag != '5' {
+				continue
+			}
+			for _, x := range opaqueXattrs {
+				if re.Hdr.PAXRecords["SCHILY.xattr."+x] == "y" {
+					opqs = append(opqs, Clean(re.Hdr.Name))
+					break
+				}
+			}
+		}
 		for _, w := range whs {
 			b.removeTree(w)
 		}
